@@ -263,3 +263,29 @@ Definition encoder_frame (G : group_table) (bs : str) (fm : str * message) : Pro
 
 (* (frame, message) as the reader hands it over: (message, raw frame) *)
 Definition delivered (fm : str * message) : message * str := (snd fm, fst fm).
+
+(* ------------------------------------------------------------------ marker-free junk (C03, last clause) *)
+
+(* what the buffer may hold after a read: nothing, or at least 6 bytes of an incomplete encoder frame *)
+Definition enc_wait_ok (G : group_table) (bs : str) (P : str) : Prop :=
+  P = [] \/ exists fm Q, encoder_frame G bs fm /\ fst fm = P ++ Q /\ Q <> [] /\ (6 <= length P)%nat.
+
+(* what may follow junk J in one buffer: at least one whole frame and then an allowed remainder; or no
+   whole frame and a remainder that, together with the junk, is shorter than the frame it begins *)
+Definition enc_junk_tail_ok (G : group_table) (bs : str) (J : str) (fms : list (str * message)) (P : str) : Prop :=
+  (fms <> [] /\ enc_wait_ok G bs P)
+  \/ (fms = [] /\ (P = [] \/ exists fm Q, encoder_frame G bs fm /\ fst fm = P ++ Q /\ Q <> []
+                                     /\ (6 <= length P)%nat /\ (length J + length P < length (fst fm))%nat)).
+
+(* a block of the stream: whole frames, a chunking of exactly these frames, and junk-only reads after it *)
+Definition block := (list (str * message) * list str * list str)%type.
+Definition block_frames (b : block) : list (str * message) := fst (fst b).
+Definition block_chunks (b : block) : list str := snd (fst b).
+Definition block_junk (b : block) : list str := snd b.
+Definition block_reads (b : block) : list str := block_chunks b ++ block_junk b.
+
+Definition enc_block_ok (G : group_table) (bs : str) (b : block) : Prop :=
+  Forall (encoder_frame G bs) (block_frames b)
+  /\ concat (block_chunks b) = concat (map fst (block_frames b))
+  /\ no_cut_inside_marker (map fst (block_frames b)) (block_chunks b) = true
+  /\ Forall (fun J => find_sub MARK J = None) (block_junk b).
